@@ -649,3 +649,28 @@ class SMaybe(SV):
 
 	def __repr__(self):
 		return f'SMaybe({self.none}, {self.ref})'
+
+
+
+class SSetT(SV):
+	"""A set of objects of sort T as characteristic array."""
+
+	def __init__(self, T, arr):
+		self.T, self.arr = T, arr
+
+	def has(self, x):
+		return z3.Select(self.arr, self.T.unwrap(x))
+
+	def fresh_like(self, name):
+		return SSetT(self.T, z3.Const(fresh_name(name), self.arr.sort()))
+
+	@staticmethod
+	def empty(T):
+		return SSetT(T, z3.K(T.sort, z3.BoolVal(False)))
+
+	@staticmethod
+	def of_seq(T, seq):
+		S = SSetT(T, z3.Const(fresh_name('setof'), z3.ArraySort(T.sort, B)))
+		v = z3.Const(fresh_name('v'), T.sort)
+		j = z3.Int(fresh_name('j'))
+		return S, z3.ForAll([v], z3.Select(S.arr, v) == z3.Exists([j], z3.And(0 <= j, j < seq.length, z3.Select(seq.arr, j) == v)))
